@@ -43,6 +43,18 @@ partial def loop (h : IO.FS.Stream) (out : IO.FS.Stream) (m : Profile) : IO Unit
         emitCase out false m s!"{profile}-{seed}-{i}" bs
       out.flush
       loop h out m
+  | ["GENBLEND", mode, seed, lop, cop, w, hh, verbose] =>
+      -- two-layer blend enumeration; pixel pairs depend on the seed only
+      let (back, src) := Gen.run seed.toNat! (Gen.blendPixelsG (w.toNat! * hh.toNat!))
+      let p := Gen.blendProgram mode.toNat! lop.toNat! cop.toNat! w.toNat! hh.toNat! back src
+      let bs := Spec.encode p
+      let id := s!"blend-{mode}-{seed}-{lop}-{cop}"
+      out.putStrLn s!"INPUT {id} {Obs.hex bs}"
+      emitCase out (verbose == "1") m id bs
+      if verbose == "1" then
+        out.putStrLn s!"PIXELS {id} {Obs.hex (Gen.rgbaBytes back)} {Obs.hex (Gen.rgbaBytes src)}"
+      out.flush
+      loop h out m
   | [cmd, id, hx] =>
       if cmd == "LOAD" || cmd == "LOADV" then
         match Obs.unhex hx with
